@@ -463,6 +463,20 @@ type naiveState struct {
 	canceled   int // GetFile calls that returned because the group was cancelled
 	parkedMax  int
 	parkedNow  int
+
+	// gen counts the merges started; returnedGen is the last one that has
+	// returned to its caller. inFlight are the downloads (GetFile calls)
+	// of the current merge that have not returned yet.
+	gen         int
+	returnedGen int
+	inFlight    int
+	ownerGoid   int64
+	semWeight   int64
+	// Cancellation by the caller of MergeDirectoryContents.
+	merging   bool
+	cancel    context.CancelFunc
+	cancelled bool
+	owner     *walker
 }
 
 func (ns *naiveState) adopt(name string) *simsync.Actor {
@@ -496,17 +510,23 @@ func (f *adoptingDirectoryFetcher) GetDirectory(ctx context.Context, d digest.Di
 	known := ns.mainGoids[gid]
 	ns.mainGoids[gid] = true
 	ns.mu.Unlock()
-	if !known {
+	if !known && gid != ns.ownerGoid {
+		// (If the walk runs on the caller's goroutine it is an actor
+		// already.)
 		ns.adopt("walk")
 	}
 	w := ns.a.w
 	me := w.me()
 	w.faulted[me] = false
 	dir, err := f.base.GetDirectory(ctx, d)
+	ns.mu.Lock()
 	if err != nil && w.faulted[me] {
-		ns.mu.Lock()
 		ns.dirFaults++
-		ns.mu.Unlock()
+	}
+	inFlight := ns.inFlight
+	ns.mu.Unlock()
+	if err != nil && inFlight > 0 {
+		w.k.Probe("walk-failed-with-downloads-in-flight")
 	}
 	return dir, err
 }
@@ -544,11 +564,18 @@ func (ff *adoptingFileFetcher) GetFile(ctx context.Context, d digest.Digest, dir
 	nv.gmu.Lock()
 	nv.goNS[gid] = ns
 	nv.gmu.Unlock()
+	ns.mu.Lock()
+	myGen := ns.gen
+	ns.inFlight++
+	ns.mu.Unlock()
 	defer func() {
 		nv.gmu.Lock()
 		delete(nv.goNS, gid)
 		nv.gmu.Unlock()
 		ns.mu.Lock()
+		if ns.gen == myGen {
+			ns.inFlight--
+		}
 		if err != nil {
 			ns.fetchFails++
 			if status.Code(err) == codes.Canceled && ctx.Err() != nil {
@@ -569,7 +596,11 @@ func (ff *adoptingFileFetcher) GetFile(ctx context.Context, d digest.Digest, dir
 	w.k.Yield("file-fetch " + full)
 	ns.mu.Lock()
 	ns.parkedNow--
+	late := ns.returnedGen >= myGen
 	ns.mu.Unlock()
+	if late {
+		w.violate("C17/download-outlives-merge", fmt.Sprintf("the download of %s goes on after the MergeDirectoryContents call that started it has returned to its caller", full))
+	}
 	return ff.base.GetFile(ctx, d, directory, name, isExecutable)
 }
 
@@ -727,6 +758,7 @@ func (w *c17) setupNaive(a *action) {
 		semaphore.NewWeighted(weight),
 		w.cas,
 	)
+	ns.semWeight = weight
 	a.naive = ns
 	w.r.Logf("%s: naive build directory, first input root dir#%d (%d nodes), download concurrency %d", a.name, a.rootDag.id, treeSize(a.rootDag), weight)
 }
@@ -880,8 +912,32 @@ func (x *walker) naiveMerge(round int, planted string) bool {
 		ns.mainGoids = map[int64]bool{}
 		ns.fs.handles = 0
 		ns.fetchFails, ns.injected, ns.dirFaults, ns.canceled, ns.parkedMax, ns.parkedNow = 0, 0, 0, 0, 0, 0
+		ns.gen++
+		ns.inFlight = 0
+		ns.ownerGoid = curGoid()
+		ns.owner = x
+		ctx, cancel := context.WithCancel(bg)
+		ns.cancel, ns.cancelled, ns.merging = cancel, false, true
 		ns.mu.Unlock()
-		err := ns.bd.MergeDirectoryContents(bg, w.logger, a.rootDag.digest, nil)
+		err := ns.bd.MergeDirectoryContents(ctx, w.logger, a.rootDag.digest, nil)
+		ns.mu.Lock()
+		ns.merging = false
+		ns.returnedGen = ns.gen
+		stillInFlight := ns.inFlight
+		cancelledByCaller := ns.cancelled
+		ns.mu.Unlock()
+		cancel()
+		w.mergesReturned++
+		if err != nil {
+			w.mergeErrors++
+			w.k.Probe("naive-merge-returned-error")
+		}
+		if stillInFlight > 0 {
+			// Whatever is still running will write into a directory its
+			// action has already given up (and that is being removed).
+			w.violate("C17/download-outlives-merge", fmt.Sprintf("%s: MergeDirectoryContents of dir#%d returned (%v) while %d of the file downloads it started are still in flight: %v", x.name, a.rootDag.id, err, stillInFlight, parkedNames(ns.live)))
+			return false
+		}
 		for _, act := range ns.live {
 			w.k.Retire(act)
 		}
@@ -923,6 +979,9 @@ func (x *walker) naiveMerge(round int, planted string) bool {
 			w.brokenSeen++
 			w.k.Probe("unloadable-input-root-rejected")
 			return true
+		case cancelledByCaller:
+			faultedAttempts++
+			w.k.Probe("naive-merge-cancelled-by-caller")
 		case planted != "":
 			// The attempt started with a foreign file at a destination;
 			// the next one starts in a clean directory.
@@ -937,6 +996,44 @@ func (x *walker) naiveMerge(round int, planted string) bool {
 			return false
 		}
 	}
+}
+
+func parkedNames(actors []*simsync.Actor) []string {
+	var out []string
+	for _, a := range actors {
+		if !a.Done() {
+			out = append(out, a.Name+"@"+a.TicketLabel())
+		}
+	}
+	sort.Strings(out)
+	return out
+}
+
+// naiveEvents lets the caller of a merge cancel it while it waits for the
+// merge to return (the action was cancelled while fetching inputs).
+func (w *c17) naiveEvents() []simsync.Event {
+	if w.faultFree || !w.k.FaultsOn {
+		return nil
+	}
+	var evs []simsync.Event
+	for _, a := range w.actions {
+		ns := a.naive
+		if ns == nil || !ns.merging || ns.cancelled || ns.semWeight != 1000 || ns.owner == nil || !ns.owner.actor.Blocked() {
+			continue
+		}
+		weight := 1
+		if w.c12 {
+			weight = 3
+		}
+		evs = append(evs, simsync.Event{Key: "cancel-merge " + a.name, Weight: weight, Fire: func() {
+			ns.mu.Lock()
+			ns.cancelled = true
+			ns.mu.Unlock()
+			w.k.FaultsFired["merge-cancelled-by-caller"]++
+			ns.cancel()
+		}})
+	}
+	return evs
 }
 
 func dumpMem(n *memNode, indent string) string {
